@@ -255,6 +255,11 @@ def m_list(interp, args, kwargs):
         src = interp.resolve(src)
     if isinstance(src, SList):
         return slist_copy(interp, src)
+    if isinstance(src, SLazyMap):
+        # interpreted from a Python model; its loop invariant belongs to the call site (spec 'map#k')
+        from .pymodels import functools_model
+        src.frame.lib_site = src.site
+        return interp.call(functools_model.map_list, [src.f, src.xs], {})
     return list(interp.iterate(src))
 
 
@@ -370,9 +375,28 @@ def m_zip(interp, args, kwargs):
     return zip(*[interp.iterate(a) for a in args])
 
 
+class SLazyMap:
+    """map(f, xs) over a symbolic-length sequence, not consumed yet"""
+
+    def __init__(self, f, xs, frame, site):
+        self.f, self.xs, self.frame, self.site = f, xs, frame, site
+
+
 @model(builtins.map)
 def m_map(interp, args, kwargs):
     f = args[0]
+    if len(args) == 2:
+        src = args[1]
+        if isinstance(src, (SOpt, SChoice)):
+            src = interp.resolve(src)
+        if isinstance(src, SList):
+            # every map() over a symbolic sequence of a repository frame has an ordinal: 'map#k'
+            for fr in reversed(interp.frame_stack):
+                if not fr.info.filename.endswith('functools_model.py'):
+                    k = getattr(fr, 'map_counter', 0)
+                    fr.map_counter = k + 1
+                    return SLazyMap(f, src, fr, 'map#%d' % k)
+            raise Unsupported('map over a symbolic sequence outside a function')
     its = [interp.iterate(a) for a in args[1:]]
     return (interp.call(f, list(xs), {}) for xs in zip(*its))
 
@@ -570,6 +594,14 @@ def m_reduce(interp, args, kwargs):
     for x in it:
         acc = interp.call(f, [acc, x], {})
     return acc
+
+
+@model(functools.partial)
+def m_partial(interp, args, kwargs):
+    from .interp import PartialObj
+    if not args:
+        raise _pyraise(TypeError("type 'partial' takes at least one argument"))
+    return PartialObj(args[0], args[1:], kwargs)
 
 
 @model(itertools.chain)
